@@ -6,9 +6,9 @@ CONSTANTS
   FixedPort = TRUE
   CallCfg <- G2udp
   ReplyClasses <- AllClasses
-  StrayClasses = {}
+  StrayClasses <- StrayCls
   MaxReplies = 2
-  MaxStray = 0
+  MaxStray = 2
   MaxEnter = 1
   MaxDelay = 3
   PeerFaults <- Faults2
@@ -18,5 +18,6 @@ CONSTANTS
   RearmPerRead = FALSE
   NoCloseOnError = FALSE
   RearmAfterConnect = FALSE
+  UdpStrays = "dropped"
 CHECK_DEADLOCK FALSE
 CONSTRAINT Export
